@@ -21,7 +21,8 @@ RULE = ('seeded family: byte strings valid or carrying exactly one defect of '
 SHRINK_LISTS = [('frag_cuts',), ('cuts',)]
 EXPECTED_PROBES = ['valid', 'invalid', 'incomplete', 'split_inside_codepoint',
                    'ping_between_fragments', 'compressed', 'as_close_reason',
-                   'stall_failfast_checked', 'compressed_large']
+                   'stall_failfast_checked', 'compressed_large',
+                   'valid_message_in_front', 'close_reason_of_greatest_length']
 ASSUMPTIONS = ['the validator state x byte product is explored through the '
                'real receive path with representative prefixes, not by an '
                'exhaustive product over internal states (see DESIGN.md 10)']
@@ -111,9 +112,21 @@ def make_case(family, i, rng, tier):
         return case
     want = rng.choice(['valid', 'invalid', 'invalid', 'incomplete'])
     payload = _payload(rng, want)
+    longest = family == 'seeded' and rng.random() < 0.06
+    if longest:
+        # a close reason of (nearly) the greatest length a Close can carry
+        L = rng.choice([121, 122, 123, 123])
+        payload = {'valid': b'r' * (L - 3) + u'\u20ac'.encode('utf-8'),
+                   'invalid': b'r' * (L - 1) + b'\xff',
+                   'incomplete': b'r' * (L - 2) + b'\xe2\x82'}[want]
     n = len(payload)
     case = {'payload': payload.hex()}
-    as_close = family == 'seeded' and n <= 123 and rng.random() < 0.2
+    if family == 'seeded' and rng.random() < 0.3:
+        # a valid text message and a Ping directly in front of it, in the
+        # same reads: delivered whatever the verdict on the payload is
+        case['before'] = True
+    as_close = longest or (family == 'seeded' and n <= 123 and
+                           rng.random() < 0.2)
     case['as'] = 'close' if as_close else 'text'
     nfr = 1 if as_close else rng.choice([1, 1, 2, 3, 4])
     case['frag_cuts'] = sorted(rng.randrange(0, n + 1)
@@ -131,6 +144,9 @@ def make_case(family, i, rng, tier):
     return case
 
 
+BEFORE = u'BEFORE \u20ac the payload under test'
+
+
 def build(case):
     payload = bytes.fromhex(case['payload'])
     enc = ST.Encoded()
@@ -141,6 +157,9 @@ def build(case):
         extra = [b'Sec-WebSocket-Extensions: permessage-deflate']
         ws = {'compress': True}
     payload_offsets = []       # wire offset (in enc.stream) of payload byte k
+    if case.get('before'):
+        ST.emit(enc, 1, BEFORE.encode('utf-8'))
+        ST.emit(enc, 9, b'before')
     if case.get('as') == 'close':
         ST.emit(enc, 8, b'\x03\xe8' + payload)
         start = enc.frame_ends[-1] - len(payload)
@@ -208,6 +227,18 @@ def execute(case):
     names = tr.names()
     as_close = case.get('as') == 'close'
     texts = [e for e in tr.events if e.name == 'text']
+    if case.get('before'):
+        res.stats['probe:valid_message_in_front'] += 1
+        first = [e for e in texts if e.snap[2] == BEFORE]
+        if len(first) != 1 or 'ping' not in names or \
+                names.index('text') > names.index('ping'):
+            res.bad('C05/%s/message_in_front_lost' % (
+                'close' if as_close else 'text'),
+                'the valid Text and the Ping in front of the payload under '
+                'test must be delivered: events %s' % names)
+        texts = [e for e in texts if e not in first[:1]]
+    if len(payload) >= 121 and as_close:
+        res.stats['probe:close_reason_of_greatest_length'] += 1
     closings = [e for e in tr.events if e.name == 'closing']
     perr = [e for e in tr.events if e.name == 'protocol_error']
     disc = [e for e in tr.events if e.name == 'disconnected']
